@@ -6,7 +6,7 @@ META = {
     "bounds": {
         "quick": "step lists {[6],[4],[6,4],[4,6],[12,8],[3,2]} with 1 note and 1 note + key/time signature; {[6],[4],[6,4],[3,2]} with 2 notes "
                  "back to back on one (channel,pitch); {[6],[4]} with 2 notes of symbolic pitch 60..61 and channel 0..1 interleaved or "
-                 "simultaneous (same pitch on two channels reachable); waits (gaps and durations) 0/1..2*max(step)+1; default step list, 1 note, waits <= 13",
+                 "simultaneous (same pitch on two channels reachable); waits (gaps and durations) 0/1..2*max(step)+1; default step list, 1 note, waits <= 13; 2 simultaneous notes with (channel,pitch) drawn from 7 pairs chosen to collide under non-injective note keys; quantise / add off-grid note + event through the absolute view / quantise again",
         "thorough": "as quick plus 2 very short notes, 2 notes + event for {[6],[4]}, [12,8] and [4,6] with 2 notes back to back, default list with 1 note and waits <= 30, single-note waits up to 3*max(step)",
     },
     "outside_claim": ["more than 2 notes + 1 event", "symbolic step sizes (division by a symbolic integer)", "ill-formed input (unclosed notes)"],
@@ -29,7 +29,12 @@ SHAPES = {
 FREE = {"n2free", "n2sim", "n2ev", "n2simw"}
 
 
-def q_quantise(shape, sname, wmax, both_views=False):
+# (channel, pitch) pairs that collide under plausible non-injective note keys (string concatenation "1"+"110" == "11"+"10",
+# channel * 100 + pitch, channel * 32 + pitch, channel + pitch)
+KEY_PAIRS = [(1, 110), (11, 10), (0, 100), (1, 0), (1, 5), (0, 37), (2, 4)]
+
+
+def q_quantise(shape, sname, wmax, both_views=False, keyset=False):
     steps = STEPS[sname]
 
     def fn(ctx):
@@ -38,7 +43,12 @@ def q_quantise(shape, sname, wmax, both_views=False):
         mx = max(st)
         spec = [("W", 0, wmax) if el == "W0" else el for el in SHAPES[shape]]
         free = shape in FREE
-        b = build_rel(ctx, spec, pitch=(60, 61) if free else (60, 60), chan=(0, 1) if free else (0, 0), wait=(1, wmax))
+        if keyset:
+            b = build_rel(ctx, spec, pitch=(0, 127), chan=(0, 15), wait=(1, wmax))
+            for c_, p_, _v in b.params.values():
+                ctx.assume(or_([and_(eq(c_, kc), eq(p_, kp)) for kc, kp in KEY_PAIRS]))
+        else:
+            b = build_rel(ctx, spec, pitch=(60, 61) if free else (60, 60), chan=(0, 1) if free else (0, 0), wait=(1, wmax))
         ctx.assume(distinct_keys_or_disjoint(ctx, b.notes))
         # absolute messages in shape order (ties in insertion order are reachable through add_absolute_message)
         msgs = []
@@ -111,8 +121,46 @@ def q_quantise(shape, sname, wmax, both_views=False):
           "positive_durations", "no_overlap", "other_events_kept", "survivor_keeps_fields"]
     if both_views:
         cl = cl + ["relative_view_follows"]
-    return Query(f"{shape}/{sname}/w{wmax}{'/both' if both_views else ''}", fn, cl,
+    return Query(f"{shape}/{sname}/w{wmax}{'/both' if both_views else ''}{'/keyset' if keyset else ''}", fn, cl,
                  desc=f"quantise({steps if steps else 'default'}) on shape {shape}")
+
+
+def q_requantise(sname, fresh_rel):
+    """quantise, edit through the absolute view (events off the grid), quantise again with the same step list:
+    the second call must put the new events on the grid as well"""
+    steps = STEPS[sname]
+
+    def fn(ctx):
+        st = list(steps)
+        mx = max(st)
+        seq = abs_sequence([on(0, 60, 70, time=3), off(0, 60, time=45)])
+        seq.quantise(list(steps))
+        if fresh_rel:
+            seq.rel
+        t1 = ctx.int("t1", 50, 50 + 2 * mx)
+        d1 = ctx.int("d1", 1, mx + 1)
+        tp = ctx.int("tp", 0, 2 * mx)
+        new_on, new_off, new_pc = on(0, 72, 90, time=t1), off(0, 72, time=t1 + d1), pc(3, time=tp)
+        for m in (new_on, new_off, new_pc):
+            seq.add_absolute_message(m)
+        seq.quantise(list(steps))
+        out = raw_abs(seq)
+        ea = [Ev(m.time, m) for m in out if m.message_type != INTERNAL]
+        ctx.must("on_grid", and_([or_([eq(m.time % s, 0) for s in st]) for m in out]))
+        ctx.must("other_events_kept", any(m is new_pc for m in out))
+        ctx.must("moved_at_most_largest_step", and_(abs(new_pc.time - tp) <= mx,
+                                                    implies(any(m is new_on for m in out), abs(new_on.time - t1) <= mx)))
+        ctx.must("time_ordered", sorted_by_time(ea))
+        ctx.must("pairing_alternates", wellformed_alternation(ea))
+        notes_out, unp = pair_notes(ea)
+        ctx.must("positive_durations", and_([n.end > n.start for n in notes_out] + [unp == 0]))
+        er_, dr_ = rel_events(raw_rel(seq))
+        ctx.must("relative_view_follows", events_eq_multiset_timed(er_, ea))
+        return [obs_abs(out)]
+    return Query(f"requantise/{sname}{'/relfresh' if fresh_rel else ''}", fn,
+                 ["on_grid", "other_events_kept", "moved_at_most_largest_step", "time_ordered", "pairing_alternates",
+                  "positive_durations", "relative_view_follows"],
+                 desc=f"quantise({steps}), add off-grid events through the absolute view, quantise({steps}) again")
 
 
 REQUIRED = ["isolated_note_dropped_only_without_room"]
@@ -135,6 +183,9 @@ def queries(tier, seed):
     qs.append(q_quantise("n1", "s6", 14, both_views=True))
     qs.append(q_quantise("n1ev", "s4", 10, both_views=True))       # a step list that repeats a value
     qs.append(q_quantise("n1", "default", 13))
+    qs.append(q_quantise("n2sim", "s4", 5, keyset=True))
+    qs.append(q_requantise("s6", False))
+    qs.append(q_requantise("s64", True))
     if tier == "thorough":
         for sn in ("s6", "s4"):
             qs.append(q_quantise("n2short", sn, 2 * max(STEPS[sn]) + 1))
@@ -143,4 +194,5 @@ def queries(tier, seed):
         qs.append(q_quantise("n2same", "s128", 13))
         qs.append(q_quantise("n2same", "s46", 9))
         qs.append(q_quantise("n1", "default", 30))
+        qs.append(q_quantise("n2free", "s6", 7, keyset=True))
     return qs
